@@ -336,7 +336,12 @@ class Engine:
         else:
             t0 = time.time()
             status = None
-            if smt._contains_quantifier(g):
+            vd = getattr(self.sh, "variant_deadline", None)
+            if vd is not None and t0 > vd:
+                # overall budget of this (function, variant) exhausted (only happens when many obligations time out, i.e. on changed
+                # code): remaining obligations are left undecided instead of running for hours
+                status, model, backend, secs = "unknown", None, "budget-exhausted", 0.0
+            if status is None and smt._contains_quantifier(g):
                 # a quantified goal that is literally (up to bound-variable names) one of the hypotheses: no solver needed
                 try:
                     if any(smt.alpha_eq(g, f) for f in reversed(self.pc[-200:])):
